@@ -85,6 +85,7 @@ func cmdRun(args []string) int {
 	solverKind := fs.String("solver", "z3", "z3|z3-new|cvc5")
 	noEvidence := fs.Bool("noevidence", false, "do not write the evidence file")
 	maxPaths := fs.Int64("maxpaths", 0, "path budget override")
+	selfN := fs.Int("selftests", -1, "number of sample paths per harness compared with native runs (default 2 quick / 4 thorough)")
 	var paramFlags multiFlag
 	fs.Var(&paramFlags, "p", "parameter override name=value")
 	fs.Parse(args)
@@ -178,6 +179,9 @@ func cmdRun(args []string) int {
 		selfTests := 2
 		if *tier == "thorough" {
 			selfTests = 4
+		}
+		if *selfN >= 0 {
+			selfTests = *selfN
 		}
 		if *noReplay {
 			selfTests = 0
